@@ -81,58 +81,102 @@ theorem ret_getKey (m : M6o) (a : ASt) (f : Nat → Bool) (k : Nat) (res : Res) 
       (fun n hn => hK.cnt k n hn)
     rw [updF_self] at this; exact this
 
-theorem ret_resetRoutine (m : M6o) (a : ASt) (f : Nat → Bool) (k : Nat) (res : Res) (hK : Know m a)
-    (hout : SpecOut a (specStep a f (.resetRoutine k)) (.resetRoutine k) res) :
-    ∃ m', m.ret (.resetRoutine k) res = some m' ∧ Know m' (specStep a f (.resetRoutine k)) ∧ m'.pending = m.pending := by
+/-- what the monitor expects of the condition functions is what the specification says -/
+theorem expMatch_sound (m : M6o) (a : ASt) (cs : List Cond) (k : Nat) (b : Bool) (hK : Know m a) (hI : SpecInv a)
+    (h : expMatch m cs k = some b) (hin : a.inSet k = true) : specMatch a cs k = b := by
+  unfold expMatch at h
+  split at h
+  · rename_i he
+    cases h
+    simp [specMatch, condsMatch, he]
+  · cases hc : m.cnt k with
+    | none => simp [hc] at h
+    | some n =>
+      simp [hc] at h
+      have hn := hK.cnt k n hc
+      have hd := hI k hin
+      simp [specMatch, hin, hd, hn, h]
+
+theorem renew_absent (a : ASt) (k : Nat) (hin : a.inSet k = false) (habs : a.st k = .absent) : renew a k = a := by
+  have h1 : renSt a k = a.st k := by simp [renSt, hin, habs]
+  have h2 : renCtor a k = a.nctor k := by simp [renCtor, hin]
+  simp only [renew, h1, h2]
+  cases a
+  simp only [ASt.mk.injEq, true_and]
+  exact ⟨upd_self _ _, upd_self _ _, trivial⟩
+
+theorem ret_resetRoutine (m : M6o) (a : ASt) (f : Nat → Bool) (k : Nat) (cs : List Cond) (res : Res) (hK : Know m a)
+    (hI : SpecInv a)
+    (hout : SpecOut a (specStep a f (.resetRoutine k cs)) (.resetRoutine k cs) res) :
+    ∃ m', m.ret (.resetRoutine k cs) res = some m' ∧ Know m' (specStep a f (.resetRoutine k cs)) ∧
+      m'.pending = m.pending := by
   simp only [SpecOut] at hout
   subst hout
   obtain ⟨x, hx, hxk⟩ := obs_sound a (m.st k) k (hK.st k)
-  simp only [M6o.ret, hx, beq_self_eq_true, if_true, specStep]
+  have hchk : chkMatch (expMatch m cs k) (a.inSet k && specMatch a cs k) (a.inSet k) = true := by
+    cases he : expMatch m cs k with
+    | none => rfl
+    | some b =>
+      cases hin : a.inSet k with
+      | false => simp [chkMatch]
+      | true => simp [chkMatch, expMatch_sound m a cs k b hK hI he hin]
+  have hre : (!(a.inSet k && specMatch a cs k) || a.inSet k) = true := by cases a.inSet k <;> simp
+  simp only [M6o.ret, hx, hchk, hre, Bool.and_self, if_true, specStep]
   refine ⟨_, rfl, ?_, rfl⟩
   cases hin : a.inSet k with
   | true =>
-    simp only [if_true]
-    apply know_upd1 m a (renew a k) k .present _ _ hK rfl rfl rfl rfl
-    · intro k' hk'; simp [renew, upd, hk']
-    · intro k' hk'; simp [renew, upd, hk']
-    · exact ⟨a.nctor k + 1, by simp [renew, upd, renSt, hin]⟩
-    · intro n hn
-      cases hc : m.cnt k with
-      | none => simp [hc] at hn
-      | some n0 =>
-        simp [hc] at hn
-        simp [renew, upd, renCtor, hin, hK.cnt k n0 hc, hn]
+    cases hm : specMatch a cs k with
+    | true =>
+      simp only [Bool.and_self, if_true]
+      apply know_upd1 m a (renew a k) k .present _ _ hK rfl rfl rfl rfl
+      · intro k' hk'; simp [renew, upd, hk']
+      · intro k' hk'; simp [renew, upd, hk']
+      · exact ⟨a.nctor k + 1, by simp [renew, upd, renSt, hin]⟩
+      · intro n hn
+        cases hc : m.cnt k with
+        | none => simp [hc] at hn
+        | some n0 =>
+          simp [hc] at hn
+          simp [renew, upd, renCtor, hin, hK.cnt k n0 hc, hn]
+    | false =>
+      simp only [Bool.and_false, Bool.false_eq_true, if_false]
+      have := know_upd1 m a a k x (m.cnt k) (k :: m.known) hK rfl rfl rfl rfl (fun _ _ => rfl) (fun _ _ => rfl)
+        hxk (fun n hn => hK.cnt k n hn)
+      rw [updF_self] at this; exact this
   | false =>
-    simp only [Bool.false_eq_true, if_false]
-    have hren : renew a k = a := by
-      have h1 : renSt a k = a.st k := by
-        have := (obs_false_absent a (m.st k) x k hin (hin ▸ hx)).2
-        simp [renSt, hin, this]
-      have h2 : renCtor a k = a.nctor k := by simp [renCtor, hin]
-      simp only [renew, h1, h2]
-      cases a
-      simp only [ASt.mk.injEq, true_and]
-      exact ⟨upd_self _ _, upd_self _ _, trivial⟩
-    rw [hren]
+    have hm : specMatch a cs k = true := by simp [specMatch, hin]
+    simp only [Bool.false_and, Bool.false_eq_true, if_false, hm, if_true]
+    have habs := (obs_false_absent a (m.st k) x k hin (hin ▸ hx)).2
+    rw [renew_absent a k hin habs]
     have := know_upd1 m a a k x (m.cnt k) (k :: m.known) hK rfl rfl rfl rfl (fun _ _ => rfl) (fun _ _ => rfl) hxk
       (fun n hn => hK.cnt k n hn)
     rw [updF_self] at this; exact this
 
-theorem ret_restartRoutine (m : M6o) (a : ASt) (f : Nat → Bool) (k : Nat) (res : Res) (hK : Know m a)
-    (hout : SpecOut a (specStep a f (.restartRoutine k)) (.restartRoutine k) res) :
-    ∃ m', m.ret (.restartRoutine k) res = some m' ∧ Know m' (specStep a f (.restartRoutine k)) ∧ m'.pending = m.pending := by
+theorem ret_restartRoutine (m : M6o) (a : ASt) (f : Nat → Bool) (k : Nat) (cs : List Cond) (res : Res)
+    (hK : Know m a) (hI : SpecInv a)
+    (hout : SpecOut a (specStep a f (.restartRoutine k cs)) (.restartRoutine k cs) res) :
+    ∃ m', m.ret (.restartRoutine k cs) res = some m' ∧ Know m' (specStep a f (.restartRoutine k cs)) ∧
+      m'.pending = m.pending := by
   simp only [SpecOut] at hout
   subst hout
   obtain ⟨x, hx, hxk⟩ := obs_sound a (m.st k) k (hK.st k)
   have hkn := know_upd1 m a a k x (m.cnt k) (k :: m.known) hK rfl rfl rfl rfl (fun _ _ => rfl) (fun _ _ => rfl) hxk
     (fun n hn => hK.cnt k n hn)
   rw [updF_self] at hkn
-  simp only [M6o.ret, hx, specStep]
-  cases hh : m.hasCtx with
-  | none => exact ⟨_, by simp [hh], hkn, rfl⟩
-  | some c =>
-    have := hK.ctx c hh
-    exact ⟨_, by simp [this, hh], hkn, rfl⟩
+  have hre : (!(a.inSet k && a.hasCtx && specMatch a cs k) || a.inSet k) = true := by cases a.inSet k <;> simp
+  have hchk : chkMatch2 m.hasCtx (expMatch m cs k) (a.inSet k && a.hasCtx && specMatch a cs k) (a.inSet k) = true := by
+    cases hh : m.hasCtx with
+    | none => rfl
+    | some c =>
+      cases he : expMatch m cs k with
+      | none => rfl
+      | some b =>
+        have hc := hK.ctx c hh
+        cases hin : a.inSet k with
+        | false => simp [chkMatch2]
+        | true => simp [chkMatch2, expMatch_sound m a cs k b hK hI he hin, hc]
+  simp only [M6o.ret, hx, specStep, hre, hchk, Bool.and_self, if_true]
+  exact ⟨_, rfl, hkn, rfl⟩
 
 theorem ret_setContext (m : M6o) (a : ASt) (f : Nat → Bool) (c : Option Nat) (r : Bool) (res : Res) (hK : Know m a)
     (hout : SpecOut a (specStep a f (.setContext c r)) (.setContext c r) res) :
